@@ -18,6 +18,7 @@ RULE = ('Generated: collections of 0..40 signatures (empty, singletons, exact du
         'and gambit.metric.jaccarddist of the pair; caller order; returned object is the supplied buffer; cells outside a strided view '
         'untouched; pairwise symmetric, zero diagonal, condensed order = squareform. Non-trivial: >= 2 references and >= 2 distinct '
         'distances in the result; distinct by case hash.')
+RULE += ' Further generated dimensions: lists of mixed integer types; big-endian / unsigned bounds; queries sliced from the open reference file; the same call from 2-3 Python threads at once; (rare, capped per worker) 999..2049 references against a vectorised exact oracle; a bulk call interrupted from a SIGALRM handler followed by re-use of its out buffer, which is watched for later writes.'
 ASSUMPTIONS = ['the OpenMP dynamic schedule is sampled (thread counts 1..16 x repeats), not enumerated: a data race can be missed',
                'a plain Python list of references has >= 1 element (an empty plain list carries no dtype/k-mer spec)']
 DEADLINE_S = {'quick': 240, 'thorough': 2400}
